@@ -23,7 +23,7 @@ EXTENDS Integers, Sequences, FiniteSets, TLC
 CONSTANT AsCoded
 
 Atoms == {0, 1, 2}
-MapKeys == {"a", "b", "0"}
+MapKeys == {"a", "b", "0", "2024"}      \* "2024": a map key that happens to be a number beyond the slice limit
 StructFields == {"x", "y"}
 ArrayLen == 2
 MaxSlice == 3
@@ -43,7 +43,9 @@ IndexKeys == <<"0", "1", "2", "3", "4", "5">>
 KeyIdx(k) == IF \E i \in 1..Len(IndexKeys) : IndexKeys[i] = k
              THEN (CHOOSE i \in 1..Len(IndexKeys) : IndexKeys[i] = k) - 1
              ELSE IF k = "+1" THEN 1 ELSE IF k = "007" THEN 7 ELSE IF k = "1000" THEN 1000
-             ELSE IF k = "1001" THEN 1001 ELSE -1
+             ELSE IF k = "1001" THEN 1001 ELSE IF k = "2024" THEN 2024
+             ELSE IF k = "9223372036854775807" THEN 2000000000      \* the largest int: far beyond the limit
+             ELSE -1                                                \* "9223372036854775808" does not parse
 IdxKey(i) == IndexKeys[i + 1]
 
 Pt(k, v, t) == [key |-> k, val |-> v, tomb |-> t]
@@ -80,7 +82,7 @@ ZeroOf(kind) ==
 \* deterministic order for sets of strings (map iteration order is random in Go;
 \* the laws must not depend on it - MC checks both orders)
 SeqOfKeys(S, rev) ==
-    LET all == IF rev THEN <<"y", "x", "b", "a", "0">> ELSE <<"0", "a", "b", "x", "y">>
+    LET all == IF rev THEN <<"y", "x", "b", "a", "2024", "0">> ELSE <<"0", "2024", "a", "b", "x", "y">>
     IN SelectSeq(all, LAMBDA k : k \in S)
 
 \* the point of one field of a "pstructp" struct: a nil pointer field is a tombstone
